@@ -37,6 +37,7 @@ fn gate(p: &Partial, _t: Tier) -> Result<(), String> {
     }
     super::need(p, "get_icao:address-space", 9 * (1 << 24) - 100)?;
     super::need(p, "get_icao:payload-family", 10_000)?;
+    super::need(p, "get_icao:region-pairs", 500)?;
     super::need(p, "zero-address-dropped", 9)?;
     super::need(p, "reader-seam:row-key", 100_000)?;
     super::need(p, "step:other-rows-present", 10_000)?;
@@ -110,6 +111,12 @@ fn typical_payload(df: u32) -> u128 {
     v
 }
 
+thread_local! {
+    /// the frame decoded just before on this thread (a wrong answer may depend on it)
+    /// (most recent last; consecutive frames with identical data bits are collapsed)
+    static PREV: std::cell::RefCell<Vec<Frame>> = const { std::cell::RefCell::new(Vec::new()) };
+}
+
 fn check_icao(ctx: &mut Ctx, f: &Frame, want: u32, family: &'static str) {
     let msg = nibbles(f);
     let df = f.df();
@@ -117,15 +124,98 @@ fn check_icao(ctx: &mut Ctx, f: &Frame, want: u32, family: &'static str) {
     ctx.eval();
     ctx.count(family);
     let want_opt = if want == 0 { None } else { Some(want) };
+    let prev: Vec<Frame> = PREV.with(|p| {
+        let mut h = p.borrow_mut();
+        let before: Vec<Frame> = h.iter().filter(|x| (x.v >> 24, x.nbits) != (f.v >> 24, f.nbits)).cloned().collect();
+        if h.last().map(|x| (x.v >> 24, x.nbits)) != Some((f.v >> 24, f.nbits)) {
+            h.push(*f);
+            if h.len() > 4 {
+                h.remove(0);
+            }
+        }
+        before
+    });
     if got != want_opt {
         let hex = f.hex();
+        // does the wrong answer depend on what was decoded before? (a fresh thread has no history)
+        let alone = {
+            let m = msg.clone();
+            std::thread::Builder::new().name("sqv-fresh".into()).spawn(move || get_icao(&m, df)).ok().and_then(|h| h.join().ok()).unwrap_or(None)
+        };
+        let history = alone == want_opt;
+        let prevhex: Vec<String> = prev.iter().map(|p| p.hex()).collect();
         ctx.violation(
-            &format!("C03/get_icao/DF{df}"),
+            &format!("C03/get_icao{}/DF{df}", if history { "-history" } else { "" }),
             &hex,
-            || format!("{hex}: reference address {want_opt:06X?}, get_icao gives {got:06X?}"),
-            || json!({"kind": "icao", "hex": hex}),
+            || format!("{hex}: reference address {want_opt:06X?}, get_icao gives {got:06X?}{}", if history { format!(" when decoded right after {prevhex:?} (alone it gives the right address)") } else { String::new() }),
+            || json!({"kind": "icao", "hex": hex, "prev": if history { prevhex.clone() } else { vec![] }}),
         );
     }
+}
+
+/// pairs of frames decoded back to back that agree everywhere except in one region of the
+/// frame (and the address): any decoder state keyed on less than the whole frame shows up
+fn region_pairs(ctx: &mut Ctx) {
+    let regions: [(u32, u32); 7] = [(6, 8), (9, 19), (20, 24), (25, 32), (33, 56), (57, 88), (89, 112)];
+    for &df in &FORMATS {
+        let nbits = if is_long(df) { 112 } else { 56 };
+        let a1 = 0x4CA2D6;
+        let f1 = build(df, a1, typical_payload(df));
+        for &(lo, hi) in &regions {
+            if lo > nbits - 24 && !(lo == 89 && nbits == 112) {
+                continue;
+            }
+            for variant in 0..4u32 {
+                // f2 = f1 with the region replaced (flip all / flip lowest / flip highest / alternate), re-sealed for another address
+                let mut f2 = f1;
+                if hi <= nbits - 24 {
+                    let w = hi - lo + 1;
+                    let old = f2.get(lo, w);
+                    let mask = match variant {
+                        0 => (1u64 << w) - 1,
+                        1 => 1,
+                        2 => 1u64 << (w - 1),
+                        _ => 0x5555_5555_5555_5555 & ((1u64 << w) - 1),
+                    };
+                    f2.set(lo, w, old ^ mask);
+                }
+                let a2 = 0x3C6586 + variant;
+                let (want1, want2);
+                match df {
+                    11 | 17 | 18 => {
+                        // AA lies in 9..32: for those regions the address itself changes; otherwise keep a1
+                        f2.seal(0);
+                        want1 = f1.get(9, 24) as u32;
+                        want2 = f2.get(9, 24) as u32;
+                    }
+                    _ => {
+                        if lo == 89 || hi <= nbits - 24 {
+                            f2.seal(a2);
+                        }
+                        want1 = a1;
+                        want2 = a2;
+                    }
+                }
+                for order in 0..2 {
+                    let seq = if order == 0 { [(f1, want1), (f2, want2)] } else { [(f2, want2), (f1, want1)] };
+                    // a third frame far away first, so that the pair is really adjacent
+                    let far = build(df, 0x123457, 0);
+                    check_icao(ctx, &far, 0x123457, "get_icao:region-pairs");
+                    for (f, w) in seq {
+                        check_icao(ctx, &f, w, "get_icao:region-pairs");
+                    }
+                }
+            }
+        }
+    }
+}
+
+/// run one family on a fresh thread: decoder-internal per-thread state starts empty and the
+/// recorded decode history (PREV) covers everything that can influence an answer
+fn on_fresh_thread(ctx: &mut Ctx, f: impl FnOnce(&mut Ctx) + Send) {
+    std::thread::scope(|s| {
+        std::thread::Builder::new().name("sqv-family".into()).spawn_scoped(s, || f(ctx)).expect("spawn").join().expect("family thread");
+    });
 }
 
 fn family_addresses() -> Vec<u32> {
@@ -148,6 +238,8 @@ fn run(ctx: &mut Ctx) {
         for pay in pays.iter().take(npay) {
             // the CRC of the data bits is constant over the address sweep for address/parity formats
             let base = build(df, 0, *pay);
+            let pay = *pay;
+            on_fresh_thread(ctx, |ctx| {
             let mut a = ctx.part as u32;
             while a < (1 << 24) {
                 let f = match df {
@@ -171,7 +263,8 @@ fn run(ctx: &mut Ctx) {
                 }
                 a += ctx.nparts as u32;
             }
-            ctx.outcome(&(df, *pay == 0, *pay == all_ones));
+            });
+            ctx.outcome(&(df, pay == 0, pay == all_ones));
         }
     }
     // (2) payload families of Hamming weight <= 1 / <= 2
@@ -188,13 +281,20 @@ fn run(ctx: &mut Ctx) {
             // i == n: the empty payload
             let p1: u128 = if i == n { 0 } else { 1u128 << i };
             let seconds: Vec<u128> = if w2 && i < n { std::iter::once(0u128).chain(((i + 1)..n).map(|j| 1u128 << j)).collect() } else { vec![0] };
-            for s in seconds {
-                for &a in &addrs {
-                    let f = build(df, a, p1 | s);
-                    check_icao(ctx, &f, a, "get_icao:payload-family");
+            let addrs = &addrs;
+            on_fresh_thread(ctx, |ctx| {
+                for s in seconds {
+                    for &a in addrs {
+                        let f = build(df, a, p1 | s);
+                        check_icao(ctx, &f, a, "get_icao:payload-family");
+                    }
                 }
-            }
+            });
         }
+    }
+    job += 1;
+    if ctx.mine(job) {
+        on_fresh_thread(ctx, region_pairs);
     }
     // (3) binding to get_message and to the reader seam (row key) at stride
     let cfg = Cfg::new(&[]);
@@ -271,6 +371,10 @@ fn replay(ctx: &mut Ctx, case: &Value) {
                 return;
             };
             let want = ref_address(&f).unwrap_or(0);
+            for p in case.get("prev").and_then(|x| x.as_array()).cloned().unwrap_or_default().iter().filter_map(|x| x.as_str()).filter_map(Frame::from_hex) {
+                let g = get_icao(&nibbles(&p), p.df());
+                crate::run::say(&format!("decoded before: {} -> {g:06X?}", p.hex()));
+            }
             let got = get_icao(&nibbles(&f), f.df());
             let cfg = Cfg::new(&[]);
             let o = run_vectors(&cfg, &[Vector { addr: want, lines: vec![hex.clone().into_bytes()] }]);
